@@ -49,15 +49,15 @@ def lossy(ck, ctx):
     F = ctx.F
     b = ck.need("fn progress_fancy::FancyState::task_output", F.body("progress_fancy::FancyState::task_output"))
     R = ctx.res(b)
-    ok = False
+    ok = True  # nothing stored, nothing to render
     for bi, blk in enumerate(b.blocks):
         if blk["cleanup"]:
             continue
         for s in blk["stmts"]:
             if s["k"] == "assign" and s["place"]["p"] and s["place"]["p"][-1].get("name") == "last_line":
                 e = R.stmt_rvalue(bi, s)
-                ok = any(c[1].endswith("from_utf8_lossy") for c in calls_in(e)) and not any(c[1].endswith("from_utf8_unchecked") or c[1].endswith("::unwrap") for c in calls_in(e))
-    ck.ob("lossy", "task_output", ok, "the last output line is stored via String::from_utf8_lossy (any raw bytes are accepted)", span=b.loc, fn=b.nname)
+                ok = ok and any(c[1].endswith("from_utf8_lossy") for c in calls_in(e)) and not any(c[1].endswith("from_utf8_unchecked") or c[1].endswith("::unwrap") for c in calls_in(e))
+    ck.ob("lossy", "task_output", ok, "whenever the last output line is stored it goes through String::from_utf8_lossy (any raw bytes are accepted)", span=b.loc, fn=b.nname)
     # no from_utf8_unchecked / from_utf8().unwrap() in render modules
     bad = []
     for fb in F.all_bodies():
@@ -214,6 +214,11 @@ def run(ck, ctx):
     lossy(ck, ctx)
     bar(ck, ctx)
     bar_partition(ck, ctx)
+    from . import fancy as FY
+    FY.tasks(ck, ctx)
+    FY.forward(ck, ctx)
+    FY.shutdown(ck, ctx)
+    FY.thread(ck, ctx)
     isolation_report(ck, ctx)
     # truncate() contract used by its callers: result is a prefix no longer than max
     ck.ob("char-boundary", "truncate-is-prefix-fn", G.prefix_fn(ctx, "progress_fancy::truncate"), "progress_fancy::truncate returns its argument or a boundary-safe prefix of it", span="progress_fancy::truncate", fn="progress_fancy::truncate")
